@@ -419,6 +419,9 @@ def gen_lens(rng):
          "gamma_pl_global_sampling": rng.random() < 0.4,
          "gamma_pl_global_dist": rng.choice(["GAUSSIAN", "NONE"]),
          "seed": rng.randrange(2 ** 31)}
+    # the sampler-side log10 switch as it reaches the distribution through the global model settings: the parameters
+    # handed to draw_lens are linear either way (mean + sigma * z with the DECLARED sigma)
+    c["log_scatter"] = c["seed"] % 3 == 0
     g = pick_mean(rng, gmin, gmax, 0.1, 2.9, p_out=0.08)
     m = pick_mean(rng, mmin, mmax, -0.5, 1.5, p_out=0.08)
     wg = 1.0 if None in (gmin, gmax) else gmax - gmin
@@ -471,7 +474,8 @@ def call_lens(c):
         log_m2l_distribution=c["log_m2l_distribution"], mst_ifu=c["mst_ifu"],
         lambda_scaling_property=c["prop"], lambda_scaling_property_beta=c["prop_beta"],
         kwargs_min=kmin, kwargs_max=kmax, gamma_pl_index=c["gamma_pl_index"],
-        gamma_pl_global_sampling=c["gamma_pl_global_sampling"], gamma_pl_global_dist=c["gamma_pl_global_dist"])
+        gamma_pl_global_sampling=c["gamma_pl_global_sampling"], gamma_pl_global_dist=c["gamma_pl_global_dist"],
+        log_scatter=bool(c.get("log_scatter", False)))
     kw = {k: c[k] for k in LENS_PAR}
     kw["gamma_pl_list"] = c["gamma_pl_list"]
     np.random.seed(c["seed"])
